@@ -51,8 +51,9 @@ def js_type(model, ns_name, t):
     if isinstance(t, P):
         return JS_PRIM.get(t.kind)
     if isinstance(t, L):
-        inner = js_type(model, ns_name, t.item)
-        return 'Array.<%s>' % inner if inner and not isinstance(t.item, N) else None
+        # a nullable item is printed as its inner type (JSDoc has no marker inside Array.<>; a '?' prefix is tolerated by the comparison)
+        inner = js_type(model, ns_name, t.item.inner if isinstance(t.item, N) else t.item)
+        return 'Array.<%s>' % inner if inner else None
     if isinstance(t, R):
         tns, d = mm.resolve(model, ns_name, t)
         if isinstance(d, Alias):
@@ -381,7 +382,7 @@ def check_js_types(model, api, specs, trace, oc, out_v):
                             f.name, name, 'optional' if p[0] else 'required', 'nullable' if nullable else 'not nullable'), inputs))
                     ns2, u, _, _ = mm.strip(model, cns, f.type)
                     exp = js_type(model, ns2, u)
-                    if exp is not None and p[1] != exp:
+                    if exp is not None and p[1] != exp and p[1].replace('.<?', '.<') != exp:
                         out_v.append(viol('js_types-field-type:%s' % type(u).__name__, 'field %s of %s has JSDoc type %s, expected %s' % (f.name, name, p[1], exp), inputs))
         else:
             if '.tag' not in ent['props']:
@@ -617,8 +618,8 @@ def run(tier, seed):
         r.sample({'profile': pn, 'trace': list(tr), 'specs': render.render(s)})
     r.run_tasks(task, states, budget=600, chunksize=4)
     r.assumptions = ['no TypeScript compiler is available: well-formedness is lexical (comments, strings, bracket balance) plus declaration scanning',
-                     'type texts are judged only where the mapping is unambiguous (primitives, lists of primitives, plain user types); nullable inside '
-                     'containers, alias targets and subtype roots are not judged', 'tag-reference / timestamp attribute values in js_client calls are not judged']
+                     'type texts are judged only where the mapping is unambiguous (primitives, lists incl. lists of nullable items, plain user types, aliases); '
+                     'subtype roots are not judged', 'tag-reference / timestamp attribute values in js_client calls are not judged']
     r.finish('every explored model x every option set of js_client / js_types / tsd_types / tsd_client: node --check and a recording harness for '
              'js_client; declaration scanners for the others (declared exactly once, members, optional markers, methods per route version, name resolution)')
 
